@@ -54,6 +54,8 @@ def reference(recipe, params, K):
     if "Exception was thrown" in plain.stdout():
         if not swallowed_exception_is_float_resolution(plain):
             fail("a plain Solve() swallowed an internal exception after %d trials" % len(plain.problem.log))
+        # (a solver that ended this way is not "finished" in the sense of the statement - neither eps nor the budget
+        # is reached - so nothing is asserted about a further Solve: with tied characteristics it may well go on)
         return None
     nstar = len(plain.problem.log)
     K = max(K, nstar)
@@ -258,6 +260,9 @@ def cases(draw):
     params = draw(gen.solver_params(max(1, min(n, 5)), 10, iters, cheap=False))
     if draw(st.integers(0, 5)) == 0:
         params = dict(params, zoom=True)     # every run of the case is re-targeted to the same sub-box first
+    if draw(st.integers(0, 11)) == 0:
+        # the search is pushed to the float resolution of the curve coordinate (the method refuses the interval)
+        recipe, params = draw(gen.resolution_case())
     total = draw(st.one_of(st.integers(1, 6), st.integers(5, 60), st.integers(20, 220)))
     case = {"recipe": recipe, "params": params, "batches": draw(gen.compositions(total, max_parts=8)),
             "twice": draw(st.booleans())}
